@@ -157,7 +157,9 @@ def normalize_key(
     shape_index = 0
     internal_shape_index = 0
 
-    for axis, (mask, k) in enumerate(zip(shape_mask, key)):
+    # When dumping, the key only indexes the external axes
+    masks = tuple(m for m in shape_mask if m) if for_dump else shape_mask
+    for axis, (mask, k) in enumerate(zip(masks, key)):
         if mask:
             axis_size = shape[shape_index]
             shape_index += 1
